@@ -178,6 +178,7 @@ pub fn scheme<S: Sch>(rec: &mut Rec, max_len: usize) {
         }
     };
     let bounded: Vec<bool> = c.polys.iter().map(|p| p.degree_bound().is_some()).collect();
+    let collide = true;
     let labels = slice_b_labels::<S>(&cfg, rec.seed);
     let (polys, comms, states) = c.refs();
     let specs = enumerate_lcs::<S::F>(rec.seed, max_len);
@@ -189,45 +190,49 @@ pub fn scheme<S: Sch>(rec: &mut Rec, max_len: usize) {
         // query-set variants: every LC gets Q1; every 5th LC also gets the wider variants
         let variants: Vec<&str> = if si % 5 == 0 || rec.thorough() { vec!["Q1", "Q2", "Q3", "Q4", "Q5"] } else { vec!["Q1"] };
         for qv in variants {
-            let id = format!("{}/LC/{}/{}", S::NAME, spec.name, qv);
+          // combination labels: fresh ones, and - for the wider variants - labels that COLLIDE with the labels of committed
+          // polynomials (combination and polynomial labels are separate namespaces of the interface)
+          let name_variants: Vec<(&str, &str)> = if (si % 5 == 0 || rec.thorough()) && (qv == "Q1" || qv == "Q4") && collide { vec![("L", "M"), ("p1", "p0")] } else { vec![("L", "M")] };
+          for (la, lb) in name_variants {
+            let id = if la == "L" { format!("{}/LC/{}/{}", S::NAME, spec.name, qv) } else { format!("{}/LC/{}/{}/labels={},{}", S::NAME, spec.name, qv, la, lb) };
             if !rec.take(&id) {
                 continue;
             }
             rec.dim("scheme", S::NAME);
             rec.dim("qvariant", qv);
-            let lc = build_lc::<S::F>("L", &spec.terms);
-            let comp = build_lc::<S::F>("M", &comp_terms);
+            let lc = build_lc::<S::F>(la, &spec.terms);
+            let comp = build_lc::<S::F>(lb, &comp_terms);
             let (a, b, cc) = (&labels[0], &labels[1], &labels[2]);
             let mut qs = QuerySet::<S::Pt>::new();
             let mut lcs = vec![lc.clone()];
             match qv {
                 "Q1" => {
-                    qs.insert(("L".into(), (a.0.clone(), a.1.clone())));
+                    qs.insert((la.to_string(), (a.0.clone(), a.1.clone())));
                 }
                 "Q2" => {
-                    qs.insert(("L".into(), (a.0.clone(), a.1.clone())));
-                    qs.insert(("L".into(), (cc.0.clone(), cc.1.clone())));
+                    qs.insert((la.to_string(), (a.0.clone(), a.1.clone())));
+                    qs.insert((la.to_string(), (cc.0.clone(), cc.1.clone())));
                 }
                 "Q3" => {
-                    qs.insert(("L".into(), (a.0.clone(), a.1.clone())));
-                    qs.insert(("L".into(), (b.0.clone(), b.1.clone())));
+                    qs.insert((la.to_string(), (a.0.clone(), a.1.clone())));
+                    qs.insert((la.to_string(), (b.0.clone(), b.1.clone())));
                 }
                 "Q4" => {
                     lcs.push(comp.clone());
-                    qs.insert(("L".into(), (a.0.clone(), a.1.clone())));
-                    qs.insert(("M".into(), (a.0.clone(), a.1.clone())));
+                    qs.insert((la.to_string(), (a.0.clone(), a.1.clone())));
+                    qs.insert((lb.to_string(), (a.0.clone(), a.1.clone())));
                 }
                 _ => {
                     lcs.push(comp.clone());
-                    qs.insert(("L".into(), (a.0.clone(), a.1.clone())));
-                    qs.insert(("M".into(), (b.0.clone(), b.1.clone())));
+                    qs.insert((la.to_string(), (a.0.clone(), a.1.clone())));
+                    qs.insert((lb.to_string(), (b.0.clone(), b.1.clone())));
                 }
             }
             let refl = ref_of::<S::F>(&spec.terms);
             let refm = ref_of::<S::F>(&comp_terms);
             let mut evals: Evaluations<S::Pt, S::F> = Evaluations::new();
             for (l, (_, z)) in qs.iter() {
-                let r = if l == "L" { &refl } else { &refm };
+                let r = if l == la { &refl } else { &refm };
                 let v = r.value(&|pl: &str| eval_at(pl[1..].parse::<usize>().unwrap(), z));
                 evals.insert((l.clone(), z.clone()), v);
             }
@@ -290,7 +295,7 @@ pub fn scheme<S: Sch>(rec: &mut Rec, max_len: usize) {
                 let mut terms2 = spec.terms.clone();
                 terms2[t].0 += S::F::one();
                 let r2 = ref_of::<S::F>(&terms2);
-                let still = qs.iter().filter(|(l, _)| l == "L").all(|(l, (_, z))| r2.value(&|pl: &str| eval_at(pl[1..].parse::<usize>().unwrap(), z)) == *evals.get(&(l.clone(), z.clone())).unwrap());
+                let still = qs.iter().filter(|(l, _)| l == la).all(|(l, (_, z))| r2.value(&|pl: &str| eval_at(pl[1..].parse::<usize>().unwrap(), z)) == *evals.get(&(l.clone(), z.clone())).unwrap());
                 if still {
                     rec.class("still-true");
                     continue;
@@ -299,7 +304,7 @@ pub fn scheme<S: Sch>(rec: &mut Rec, max_len: usize) {
                     // the altered combination is itself one the verifier must refuse
                 }
                 let mut lcs2 = lcs.clone();
-                lcs2[0] = build_lc::<S::F>("L", &terms2);
+                lcs2[0] = build_lc::<S::F>(la, &terms2);
                 let d = run_check::<S>(&keys, &lcs2, &comms, &qs, &evals, &pf, rec.seed);
                 fault(rec, "coefficient", d, format!("verifier-side coefficient of term {} changed by +1", t));
             }
@@ -308,7 +313,7 @@ pub fn scheme<S: Sch>(rec: &mut Rec, max_len: usize) {
                 let mut terms2 = spec.terms.clone();
                 terms2.push((S::F::one(), None));
                 let mut lcs2 = lcs.clone();
-                lcs2[0] = build_lc::<S::F>("L", &terms2);
+                lcs2[0] = build_lc::<S::F>(la, &terms2);
                 let d = run_check::<S>(&keys, &lcs2, &comms, &qs, &evals, &pf, rec.seed);
                 fault(rec, "constant", d, "verifier-side constant term +1 added".into());
             }
@@ -341,6 +346,7 @@ pub fn scheme<S: Sch>(rec: &mut Rec, max_len: usize) {
                     }
                 }
             }
+          }
         }
     }
 }
